@@ -283,6 +283,14 @@ func factsTokens(t *T) (string, error) {
 		if !capFound {
 			unknown("literal_cap", "upper guard on literalSize in ParseLiteral")
 		}
+		// ParseQuoted: the character after a backslash must be a quoted-special
+		if fq := FuncDecl(f, "Parser", "ParseQuoted"); fq == nil {
+			unknown("quoted_escape_requires_special", "func ParseQuoted")
+		} else {
+			nq := strings.Join(strings.Fields(t.Src("rfcparser/parser.go", fq.Body)), " ")
+			fmt.Fprintf(&sb, "Definition quoted_escape_requires_special : bool := %v.   (* `p.ConsumeWith(IsQuotedSpecial, …)` after a backslash *)\n",
+				strings.Contains(nq, "p.Matches(TokenTypeBackslash)") && strings.Contains(nq, "p.ConsumeWith(IsQuotedSpecial,"))
+		}
 		// does ParseLiteral special-case size 0 (return before Scanner.ConsumeBytes)?
 		src := t.Src("rfcparser/parser.go", fd.Body)
 		norm := strings.Join(strings.Fields(src), " ")
